@@ -1,6 +1,8 @@
 import WindVerif.Model.Generic
 import WindVerif.Model.GenericK
 import WindVerif.Model.GenericEq
+import WindVerif.Model.BatcherLazy
+import WindVerif.Model.ScanSteps
 import WindVerif.Drv.Common
 import WindVerif.Drv.Sorted
 namespace WindVerif.Drv
@@ -15,6 +17,14 @@ def splitBar (ws : List String) : List String × List String :=
   (ws.takeWhile (· ≠ "|"), (ws.dropWhile (· ≠ "|")).drop 1)
 
 def showLists (ls : List (List Int)) : String := joinWith ";" (ls.map showInts)
+
+/-- outcomes of successive `next()` calls on a `BatcherIter` generator: a batch as its items joined by `,`; `R` = the source's
+exception passed through; `S` = StopIteration -/
+def showOutcomes (os : List BatcherLazy.Outcome) : String :=
+  joinWith ";" (os.map (fun o => match o with
+    | .batch l => showInts l
+    | .raised => "R"
+    | .stop => "S"))
 
 def showCombos (l : List (List Nat × Nat)) : String :=
   joinWith ";" (l.map (fun p => joinWith "." (p.1.map toString) ++ ":" ++ toString p.2))
@@ -88,6 +98,21 @@ def genericStep (_ : Unit) (ws : List String) : Unit × String :=
     | "batchiter" :: b :: ks => (match b.toNat?, parseInts ks with
       | some b, some xs => "lists " ++ showLists (batcherIter xs b)
       | _, _ => "bad-op")
+    -- `batchlazy <b> <fails 0|1> <k> <items…>`: the first `k` `next()` calls on `iter(BatcherIter(source, b))`, the source giving the
+    -- items and then ending (`0`) or raising (`1`); answer `pulled:<items taken from the source so far> out:<outcomes>`;
+    -- `batchahead …`: the same for the read-ahead variant; `b = 0` is refused by the constructor
+    | "batchlazy" :: b :: f :: k :: ks => (match b.toNat?, f.toNat?, k.toNat?, parseInts ks with
+      | some b, some f, some k, some xs =>
+        if b = 0 then "err ValueError" else
+        let r := BatcherLazy.take b ⟨xs, f != 0⟩ k
+        s!"pulled:{r.2.pulled} out:{showOutcomes r.1}"
+      | _, _, _, _ => "bad-op")
+    | "batchahead" :: b :: f :: k :: ks => (match b.toNat?, f.toNat?, k.toNat?, parseInts ks with
+      | some b, some f, some k, some xs =>
+        if b = 0 then "err ValueError" else
+        let r := BatcherLazy.takeAhead b ⟨xs, f != 0⟩ k
+        s!"pulled:{r.2.pulled} out:{showOutcomes r.1}"
+      | _, _, _, _ => "bad-op")
     | "batchiter2" :: b :: ks =>
       -- `batchiter2 b x1 x2 … | y1 y2 …`: a tuple of two iterables of possibly different length
       (match b.toNat?, parseInts (ks.takeWhile (· ≠ "|")), parseInts ((ks.dropWhile (· ≠ "|")).drop 1) with
@@ -108,6 +133,10 @@ def genericStep (_ : Unit) (ws : List String) : Unit × String :=
       | none => "bad-op")
     | "mincomb" :: a :: b :: ws => (match a.toInt?, b.toInt?, parseNats ws with
       | some a, some b, some sc => "ret " ++ showCombos (minCombinations sc a b)
+      | _, _, _ => "bad-op")
+    -- `minsteps <iStart> <iEnd> s1 s2 …`: combinations `min_combinations_in_interval_iter_sorted` pulls from the stream
+    | "minsteps" :: a :: b :: ws => (match a.toInt?, b.toInt?, parseNats ws with
+      | some a, some b, some sc => s!"ret {minCombinationsSteps sc a b}"
       | _, _, _ => "bad-op")
     | _ => "bad-op"
   ((), r)
